@@ -32,7 +32,9 @@ fn one_status_cleared(rng: &mut Rng, reg: u32, mb: u64) -> u64 {
 
 fn boundary50(rng: &mut Rng) -> F50 {
     let mut f = gen::valid_f50(rng);
-    match rng.below(6) {
+    match rng.below(8) {
+        6 => { f.trk_sign = 1; f.trk = 0; }               // true track exactly 180 deg
+        7 => { f.tar_sign = 1; f.tar = 0; }               // -16 deg/s
         0 => { f.roll_sign = 0; f.roll = 284; }           // 49.9 deg
         1 => { f.roll_sign = 1; f.roll = 512 - 284; }     // -49.9 deg
         2 => { f.gs = 300; f.tas = 250; }                 // GS 600, TAS 500
@@ -45,7 +47,8 @@ fn boundary50(rng: &mut Rng) -> F50 {
 
 fn boundary60(rng: &mut Rng) -> F60 {
     let mut f = gen::valid_f60(rng);
-    match rng.below(5) {
+    match rng.below(7) {
+        5 | 6 => { f.hdg_sign = 1; f.hdg = 0; }             // magnetic heading exactly 180 deg
         0 => f.mach = 250,                                  // Mach 1.0
         1 => { f.baro_sign = 0; f.baro = 187; }             // +5984
         2 => { f.baro_sign = 1; f.baro = 512 - 187; }       // -5984
@@ -79,7 +82,12 @@ fn gen(rng: &mut Rng, _idx: u64, tier: Tier) -> Case {
             df20_21(df, ac.icao, rng.below(8), rng.below(32), rng.below(64), field, mb)
         };
         let (f, tag): (Vec<u8>, String) = match rng.below(24) {
-            0 | 1 | 2 => (gen::frame(rng, ac, Kind::Df11, true), "df11".into()),
+            0 | 1 | 2 => {
+                // an aircraft with CA >= 4 may report different values >= 4 over time (airborne / on ground ...):
+                // "a capability of 4 or more has been recorded" stays unambiguous
+                if ac.ca >= 4 && rng.chance(0.4) { ac.ca = rng.range(4, 7) as u64; }
+                (gen::frame(rng, ac, Kind::Df11, true), "df11".into())
+            }
             3 => { let k = *rng.pick(&[Kind::Ident, Kind::AirPos, Kind::Vel12]); (gen::frame(rng, ac, k, true), "df17".into()) }
             4 | 5 | 6 => { let mb = mb_bds17(ac.caps); (mk(rng, ac, mb), "bds17".into()) }
             7 => { let mb = mb_bds17(ac.caps) | (1u64 << rng.below(20)); (mk(rng, ac, mb), "bds17-reserved-bit".into()) }
